@@ -37,6 +37,7 @@ type Type struct {
 	Fields  []Field // KStruct: exported fields (expansion candidates)
 	Impl    []int   // KStruct: interface ids implemented
 	PtrRecv bool    // KStruct: methods have pointer receivers (only *S implements)
+	Pure    bool    // KStruct: no identity field; identity always derives from the fields (wire.Struct targets)
 	Raw     string  // KRaw: the Go expression (main-package view)
 	RawDecl string  // KRaw: declarations to add to types.go (may be empty)
 	BaseVar string  // KRaw: expected variable base name (informational)
@@ -47,6 +48,7 @@ type Field struct {
 	Name     string
 	T        int
 	Embedded bool
+	Tag      string // raw struct tag, e.g. `wire:"-"`
 }
 
 type ProvKind string
@@ -55,6 +57,9 @@ const (
 	PFunc   ProvKind = "func"
 	PValue  ProvKind = "value"
 	PStruct ProvKind = "struct"
+	// PAssemble (wire only): wire.Struct(new(S), fields...) builds S (or *S)
+	// from its fields; Params are the listed fields' types, AsmFields their names.
+	PAssemble ProvKind = "assemble"
 )
 
 type Prov struct {
@@ -72,6 +77,9 @@ type Prov struct {
 	ValExpr string // PValue: Go expression
 	ValH    uint64 // PValue: H of the expression's value
 	Variadic bool  // static only: last parameter is variadic
+	AsmFields []string // PAssemble: listed field names ("*" = all)
+	IfaceVal bool // PValue (wire only): wire.InterfaceValue(new(Binds[0]), expr)
+	Decoy    bool // emitted as a function but part of no declaration (must never run)
 }
 
 // Item is either a provider reference or a set reference.
@@ -284,7 +292,10 @@ func (s *Spec) Interpret(inj *Injector) *Ref {
 			structs = append(structs, p)
 		case PValue:
 			add(p.Results[0], Supplier{Prov: pid, Field: -1})
-		case PFunc:
+			for _, b := range p.Binds {
+				add(b, Supplier{Prov: pid, Field: -1})
+			}
+		case PFunc, PAssemble:
 			for i, t := range p.Results {
 				add(t, Supplier{Prov: pid, Result: i, Field: -1})
 			}
@@ -459,6 +470,31 @@ func (s *Spec) Eval(r *Ref, nonce uint64, ctxH uint64) *Expect {
 	}
 	for _, pid := range r.Needed {
 		p := s.Provs[pid]
+		if p.Kind == PAssemble {
+			// identity of an assembled struct derives from all its fields (unlisted / excluded = 0)
+			sb := s.structBase(p.Results[0])
+			hs := []uint64{0x57}
+			star := len(p.AsmFields) == 1 && p.AsmFields[0] == "*"
+			k := 0
+			for _, f := range s.Types[sb].Fields {
+				h := uint64(0)
+				if star {
+					if f.Tag == "" && k < len(p.Params) {
+						h = typeH(p.Params[k])
+						k++
+					}
+				} else {
+					for i, n := range p.AsmFields {
+						if n == f.Name {
+							h = typeH(p.Params[i])
+						}
+					}
+				}
+				hs = append(hs, h)
+			}
+			e.Outs[pid] = []uint64{Mix(hs...)}
+			continue
+		}
 		if p.Kind != PFunc {
 			continue
 		}
